@@ -68,6 +68,13 @@ pub static SITE_HITS: [AtomicU64; 8] = [AtomicU64::new(0), AtomicU64::new(0), At
 pub type SchedFn = fn(site: &'static str, a: u64, b: u64);
 static SCHED: std::sync::atomic::AtomicPtr<()> = std::sync::atomic::AtomicPtr::new(std::ptr::null_mut());
 
+/// optional observer called (before the scheduler) for every non-decoder hook hit
+static TAP: std::sync::atomic::AtomicPtr<()> = std::sync::atomic::AtomicPtr::new(std::ptr::null_mut());
+
+pub fn set_tap(f: Option<SchedFn>) {
+	TAP.store(f.map(|f| f as *mut ()).unwrap_or(std::ptr::null_mut()), Ordering::SeqCst);
+}
+
 pub fn set_sched(f: Option<SchedFn>) {
 	SCHED.store(f.map(|f| f as *mut ()).unwrap_or(std::ptr::null_mut()), Ordering::SeqCst);
 }
@@ -121,6 +128,11 @@ fn hook(site: &'static str, a: u64, b: u64) {
 			}
 		}
 		return;
+	}
+	let t = TAP.load(Ordering::Relaxed);
+	if !t.is_null() {
+		let f: SchedFn = unsafe { std::mem::transmute::<*mut (), SchedFn>(t) };
+		f(site, a, b);
 	}
 	let s = SCHED.load(Ordering::Relaxed);
 	if !s.is_null() {
